@@ -677,6 +677,10 @@ func (g *gctx) genFile(fi int) *JFile {
 				default:
 					m.Params[k].Annotations = append(m.Params[k].Annotations, "@RequestBody")
 				}
+				if t.Bool(1, 6) {
+					// a nested or package-qualified body type: reported as written
+					m.Params[k].Type = g.pick([]string{"OrderRequests.Create", "com.acme.dto.UpdateOrder", "List<com.acme.dto.UpdateOrder>", "Outer.Inner.Deep"})
+				}
 				body = m.Params[k].Type
 			}
 			for pi := range m.Params {
@@ -1019,6 +1023,13 @@ func (g *gctx) genBody(fi int, fields, locals map[string]string, need func(strin
 			inner["each"] = typ
 			out = append(out, indent(g.genBody(fi, fields, inner, need, depth+1, 2))...)
 			out = append(out, "}")
+		case k == 16 && g.o.Nested: // qualified inner-class creation: outer.new Inner()
+			recv := g.receiver(fi, fields, locals, need)
+			if recv == "" {
+				recv = "this"
+			}
+			out = append(out, fmt.Sprintf("Object in%d = %s.new %s();", depth, recv, g.pick([]string{"Builder", "Callback", "Inner", "Entry", "Item"})))
+			out = append(out, g.pick(methodNames)+"(in"+fmt.Sprintf("%d", depth)+");")
 		case k == 15: // assorted expression shapes
 			switch t.Pick(6) {
 			case 0:
